@@ -134,17 +134,58 @@ def check_operator(ctx, op):
                 ctx.bad(R + "R1", it, lp, "%s has more than one merge loop" % op)
                 return
             main = (lp, heads)
+    merged_tail = None
+    loop_pos = None
+    if main is None:
+        # one loop for both phases: `while ha is not None:` whose branches test
+        # `hb is None` -- read under the two cases (hb still there / exhausted)
+        # as the merge loop and the tail loop of side a
+        from .. import symcase
+        for lp in loops:
+            p = pat.cmp_parts(ctx, it, lp.test)
+            if not (p and p[0] == "is not" and p[2] == "None"):
+                continue
+            ha = p[1]
+            others = set()
+            for n in _walk(lp.body):
+                if isinstance(n, ast.Compare):
+                    q = pat.cmp_raw(n)
+                    if q and q[0] in ("is", "is not") and q[2] == "None" and q[1] != ha \
+                            and q[1].isidentifier():
+                        others.add(q[1])
+            if len(others) != 1:
+                continue
+            hb = others.pop()
+
+            def decider(gone):
+                def decide(t):
+                    q = pat.cmp_raw(t)
+                    if q and q[1] == hb and q[2] == "None" and q[0] in ("is", "is not"):
+                        return gone if q[0] == "is" else not gone
+                    return None
+                return decide
+            vmain = ast.While(test=lp.test, body=symcase.specialise(lp.body, decider(False)),
+                              orelse=[])
+            vtail = ast.While(test=lp.test, body=symcase.specialise(lp.body, decider(True)),
+                              orelse=[])
+            ast.copy_location(vmain, lp)
+            ast.copy_location(vtail, lp)
+            main = (vmain, [ha, hb])
+            merged_tail = (ha, vtail)
+            loop_pos = lp
+            break
     if main is None:
         ctx.bad(R + "R1", it, it.node, "%s: no two-finger merge loop `while ha "
                 "is not None and hb is not None` found" % op,
                 text_="%s merge loop" % op)
         return
     loop, heads = main
+    loop_pos = loop_pos or loop
     # which head belongs to which side: via the priming _get_next assignments
     sides = {}
     for n in it.own_nodes():
         na = _next_assign(n) if isinstance(n, ast.Assign) else None
-        if na and na[0] in heads and not is_within(n, loop) and \
+        if na and na[0] in heads and not is_within(n, loop_pos) and \
                 not any(is_within(n, l2) for l2 in loops):
             itname = na[2]
             # iterator variable must come from the operand's default iteration
@@ -226,8 +267,10 @@ def check_operator(ctx, op):
             if ys:
                 _check_emission(ctx, it, op, rel, ys[0], stmts, A, B)
     # -- R6 tails
-    after = _stmts_after(it, loop)
+    after = _stmts_after(it, loop_pos)
     tails = {}
+    if merged_tail is not None:
+        tails["A" if merged_tail[0] == A.head else "B"] = merged_tail[1]
     for st in after:
         if isinstance(st, ast.While):
             p = pat.cmp_parts(ctx, it, st.test)
@@ -913,6 +956,16 @@ def nary(ctx):
                 if lp and l == t and r == text(lp[0].target) and \
                         text(lp[0].iter).replace(" ", "") == "args[2:]":
                     step = True
+        # the same left fold spelled functools.reduce(operator.<op>, args[2:], args[0] <op> args[1])
+        opname = {ast.BitAnd: "and_", ast.BitOr: "or_"}[sym]
+        for n in f.own_nodes():
+            if isinstance(n, ast.Call) and text(n.func) in ("functools.reduce", "reduce") \
+                    and len(n.args) == 3 and not n.keywords and \
+                    text(n.args[0]) in ("operator." + opname, opname) and \
+                    text(n.args[1]).replace(" ", "") == "args[2:]" and \
+                    isinstance(n.args[2], ast.BinOp) and isinstance(n.args[2].op, sym) and \
+                    (text(n.args[2].left), text(n.args[2].right)) == ("args[0]", "args[1]"):
+                first = step = True
         if first and step:
             ctx.ok("C04.R1", f, f.node, "%s folds the binary operator left to "
                    "right over args" % name, text_="def %s" % name)
